@@ -967,7 +967,108 @@ def strip_keys(t):
     return t
 
 
-def gen_keyed_type(r, ver=None, collide=False, depth=2, counter=None, top=True, exotic=False):
+def has_opt_keyed_struct(t):
+    """an OPTIONAL member of structure type whose structure carries key members (they are NOT part of the key)"""
+    if t[0] != "struct":
+        return False
+    for m in t[2]:
+        if m[4][0] == "struct":
+            if m[1] and not m[2] and any_key_flag(m[4]):
+                return True
+            if has_opt_keyed_struct(m[4]):
+                return True
+    return False
+
+
+def any_key_flag(t):
+    return t[0] == "struct" and any(m[2] or any_key_flag(m[4]) for m in t[2])
+
+
+def opt_keyed_struct_paths(t, path=(), reach=True):
+    """paths of the optional non-key structure members (with key flags inside) that the key traversal reaches,
+    i.e. whose parent chain consists of non-key, non-optional structures"""
+    out = []
+    if t[0] == "struct":
+        for idx, m in enumerate(t[2]):
+            if m[4][0] == "struct" and not m[2]:
+                if m[1]:
+                    if any_key_flag(m[4]):
+                        out.append(path + (idx,))
+                else:
+                    out += opt_keyed_struct_paths(m[4], path + (idx,))
+    return out
+
+
+def gen_keyed_type(r, ver=None, collide=False, depth=2, counter=None, top=True, exotic=False, optkey=False):
+    t = gen_keyed_type0(r, ver, collide, depth, counter, top, exotic)
+    if optkey and top and not opt_keyed_struct_paths(t):
+        # follow-up 3: an optional member whose structure type has key members of its own (a keyed type reused as an
+        # optional sub-structure); placed at the top level or inside a non-optional nested structure
+        ids = [0]
+
+        def maxid(tt):
+            if tt[0] == "struct":
+                for m in tt[2]:
+                    ids[0] = max(ids[0], m[0])
+                    maxid(m[4])
+        maxid(t)
+        base = ids[0] + 1 + (1 if ids[0] == 0 else 0)
+        nk = r.range(1, 2)
+        sub_ms = []
+        for j in range(nk + r.below(2)):
+            kt = r.choice([("prim", "u8"), ("prim", "u16"), ("prim", "u32"), ("prim", "u64"), ("str",),
+                           ("arr", ("prim", "u8"), 3)])
+            sub_ms.append(((j if collide else base + 1 + j), False, j < nk, False, kt))
+        sub = ("struct", r.choice("FFA"), sub_ms)
+        new = ((len(t[2]) if collide else base), True, False, r.chance(1, 8), sub)
+        ms = list(t[2])
+        nested = [i for i, m in enumerate(ms) if m[4][0] == "struct" and not m[1] and not m[2] and m[4][1] != "M"]
+        if nested and r.chance(1, 3):
+            i = r.choice(nested)
+            inner = ms[i][4]
+            new_in = ((len(inner[2]) if collide else base), True, False, False, sub)
+            ms[i] = ms[i][:4] + (("struct", inner[1], list(inner[2]) + [new_in]),)
+        else:
+            ms.insert(r.below(len(ms) + 1), new)
+        t = ("struct", t[1], ms)
+    return t
+
+
+def toggle_opt_struct(r, t, v, ver=None):
+    """a copy of v in which one reachable optional keyed-structure member is removed (if present), or given a value /
+    another value (if absent / with probability 1/2): the key must not change"""
+    ps = opt_keyed_struct_paths(t)
+    if not ps:
+        return None
+    p = r.choice(ps)
+
+    def ty_at(tt, path):
+        for i in path:
+            tt = tt[2][i][4]
+        return tt
+
+    def rebuild(vv, path):
+        if vv is None:
+            return None
+        fs = list(vv[1])
+        if len(path) == 1:
+            cur = fs[path[0]]
+            if cur is not None and r.chance(1, 2):
+                fs[path[0]] = None
+            else:
+                for _ in range(20):
+                    nv = gen_value(r, ty_at(t, p), Knobs(ver=ver, optional=0), ver=ver)
+                    if cur is None or val_text(nv) != val_text(cur):
+                        fs[path[0]] = nv
+                        break
+        else:
+            fs[path[0]] = rebuild(fs[path[0]], path[1:])
+        return ("rec", fs)
+    nv = rebuild(v, p)
+    return nv if val_text(nv) != val_text(v) else None
+
+
+def gen_keyed_type0(r, ver=None, collide=False, depth=2, counter=None, top=True, exotic=False):
     """a structure type with at least one key member; nested non-key structures may carry further key members.
     collide=False: member ids are taken from one counter, so the flattened key ids are distinct;
     collide=True: every structure numbers its members from 0 (the natural numbering) -> flattened ids collide (D73)."""
@@ -981,7 +1082,7 @@ def gen_keyed_type(r, ver=None, collide=False, depth=2, counter=None, top=True, 
         c = r.below(10)
         is_key = r.chance(2, 5)
         if depth > 0 and c < 3 and not is_key:
-            sub = gen_keyed_type(r, ver, collide, depth - 1, counter, top=False, exotic=exotic)
+            sub = gen_keyed_type0(r, ver, collide, depth - 1, counter, top=False, exotic=exotic)
             mt = sub
             have_key = have_key or bool(flat_key_members(sub))
         elif is_key:
